@@ -19,6 +19,7 @@ func (e *Engine) errIs(st *State, a, b *Term) *Term {
 		}
 		return BoolT(a.N.Cmp(b.N) == 0)
 	}
+	e.isAAxioms(st)
 	t := App("isA", BoolS, a, b)
 	// axioms instantiated for this pair
 	st.assume(Implies(Eq(a, b), t))
@@ -28,7 +29,19 @@ func (e *Engine) errIs(st *State, a, b *Term) *Term {
 	return t
 }
 
+// isAAxioms: sentinel errors (ids below 2^20) and nil wrap nothing.
+func (e *Engine) isAAxioms(st *State) {
+	if st.factSet["isA:axioms"] {
+		return
+	}
+	st.factSet["isA:axioms"] = true
+	x, t := Var("isa_x", IntS), Var("isa_t", IntS)
+	st.facts = append(st.facts, Forall([]*Term{x, t}, [][]*Term{{App("isA", BoolS, x, t)}},
+		Implies(And(Ge(x, Zero), Lt(x, Num(1<<20))), Eq(App("isA", BoolS, x, t), Eq(x, t)))))
+}
+
 func (e *Engine) newErr(st *State, wraps []*Term) Val {
+	e.isAAxioms(st)
 	id := e.fresh("err", IntS)
 	st.assume(Gt(id, Num(1<<20)))
 	// isA(id, t) <=> t == id || isA(w, t) for wrapped w : stated for all t
